@@ -238,7 +238,7 @@ theorem revoke_stored {s : Sys} (hr : Reachable s) {ch : Handle} {n : Rcn} {ki :
     have hiss : c.isIssued ki = true := by simp [Child.isIssued, hused]
     have hp : s.ca.process (.childRevokeKey ch n ki) =
         .ok [.childKeyRevoked ch (c.nameInParent n) ki, .childCerts (c.nameInParent n) { removed := [ki] }] := by
-      simp [Ca.process, hc, hq, hiss]
+      simp [Ca.process, hc, hq, hiss, hused]
     obtain ⟨s', hex, happ, hr'⟩ := stored_of_process hr (c := _) (by
       intro cd rc0 hcd hcls
       rw [hc] at hcd; cases hcd
